@@ -916,7 +916,10 @@ class SFloat:
         r = self.__eq__(o)
         return ~r if isinstance(r, SBool) else (not r if isinstance(r, bool) else r)
 
-    __hash__ = None
+    def __hash__(self):
+        # floats are hashable: all symbolic floats share one bucket, so a dict / set lookup is decided by == against the other
+        # symbolic keys (forking on equality); a concrete key equal to the symbolic one is not found (documented limit)
+        return 0x5F10A7
 
     def __bool__(self):
         return bool(self != 0)
